@@ -1,5 +1,20 @@
 # property id -> claim text (filled as checks are admitted; everything else is listed under NA with the reason)
 CLAIMS = {
+ 'C11': {'technique': 'static analysis: must-/may-hold lock sets (forward data flow over the CFG), ordering/pairing of enqueue, signal, drain, dequeue, block and re-entry, predicate-wait shape check',
+         'text': 'Decides the structure that rules out lost wake-ups by construction: queue accesses under the queue\'s own lock; enqueue and first-Message decision in one critical section with the signal after '
+                 'it and to the right side; the receiver drains before it dequeues and never between dequeue and block, blocks only after a dequeue attempt and without a lock, and re-enters to dequeue after '
+                 'every wake-up; WaitCondition counts notifications under its mutex and waits with a predicate; quit request precedes join; queued-before-start Messages are signalled. Interleavings are not explored.',
+         'note': 'Only the C++11 branches of WaitCondition (the analysed configuration) are judged.'},
+ 'C18': {'technique': 'static analysis: must-/may-hold lock sets, guard dominance of registrations by the admission tests within one guard object, wait-in-loop and may-reach hand-off checks',
+         'text': 'Decides the structural invariants of the reader/writer mutex: state tables only under _stateMutex (helper preconditions inferred from all call sites); admission tests contain the exclusion '
+                 'conjuncts; every registration of a new executing thread is dominated by the true edge of the matching test in the same critical section (also after a wake-up); waits happen with the lock '
+                 'released and inside re-check loops; each departure can reach a notify routine in the same critical section. Exclusion/liveness over interleavings, writer preference and deadlines are not explored.',
+         'note': 'Hand-off is a may-reach rule (a must-reach form would alarm on the infeasible `--count != 0` path).'},
+ 'C19': {'technique': 'static analysis: must-/may-hold lock sets with inferred helper preconditions, critical-section co-location of hand-off/flag/table updates, queue-choice and unregister atomicity checks',
+         'text': 'Decides the thread pool\'s locking structure: all pool tables under _poolLock; *Unsafe helpers only called with it; no blocking call under it (one frozen, checked roll-back join); hand-off, '
+                 'being-handled flag and pending-table removal in one critical section; submit chooses the queue by the flag; completion clears, promotes and dispatches under one guard; unregister tests and '
+                 'registers atomically and waits outside the lock. Interleavings are not explored.',
+         'note': 'Assumes client callbacks do not re-enter the pool while it holds the lock.'},
  'C12': {'technique': 'static analysis: guard-atom dominance on the CFG with operand identification by declaration, path enumeration for the disjunctive atom, writer/reader header-order agreement',
          'text': 'Decides that the reassembly copy and the hand-off are control dependent on the complete acceptance test (state looked up by source address, message id, offset, total size, overflow test, bounds, '
                  'bytes available, magic, source exclusion), that a Message starts only at offset 0, and that writer and reader agree on the header word order — for every packet sequence at once, as necessary '
@@ -45,6 +60,6 @@ CLAIMS = {
          'note': 'Assumes const methods with by-value/const-ref parameters do not change what loop tests read; logging and destructor hubs are cut from the recursion graph.'},
 }
 _PENDING = 'check under construction in this session (see DESIGN.md section 4); not claimed until its rule is admitted'
-NA = {pid: _PENDING for pid in ['C01','C03','C08','C10','C11','C14','C15','C16','C17','C18','C19']}
+NA = {pid: _PENDING for pid in ['C01','C03','C08','C10','C14','C15','C16','C17']}
 NA['C09'] = ('refinement of an ideal ordered map over operation histories with live iterators: its mechanisms are co-located with the mutations they protect inside single template functions; '
              'no sound structural necessary condition was found that is not either compiler-enforced or a frozen-fragment match (DESIGN.md section 4, C09)')
